@@ -23,7 +23,10 @@ META = {
         'comparison parser pairs each operand with its rank; (funnel) element '
         'results pass the non-finite funnel and ValueError/TypeError map to '
         '#VALUE!, FoundError to its payload; (pow) a float power in an operator '
-        'core is guarded against complex results, overflow and zero division.'),
+        'core is guarded against complex results, overflow and zero division; '
+        '(nomut) no operator core, parser, wrapper or shared helper '
+        '(replace_empty, ...) writes in place to an operand it received, so '
+        'evaluating an operator cannot change what the next one sees.'),
     'not_decided': (
         'Coercion of numeric text and blanks, the display form used by &, '
         'case-insensitive text comparison and numeric values.'),
@@ -578,8 +581,9 @@ def rule_pow(ctx):
 
 
 def run(ctx):
-    from .common import rule_memo
+    from .common import rule_memo, nomut_for
+    ops = list(ctx.registry.operators.values())
     return [rule_optable(ctx), rule_errfirst(ctx), rule_rank(ctx),
             rule_funnel(ctx), rule_pow(ctx),
-            rule_memo(ctx, 'C02', 'C02.memo',
-                      list(ctx.registry.operators.values()))]
+            rule_memo(ctx, 'C02', 'C02.memo', ops),
+            nomut_for(ctx, 'C02', 'C02.nomut', ops, floor=20)]
